@@ -140,21 +140,31 @@ def solve_case(case):
     jac = J if case["jac"] == "analytic" else None
     solver = case["solver"]
     r.n = 1
+    kw = {}
+    if case.get("bounds"):
+        # the unknowns confined to a box (var_bounds): whatever the box does to the iteration, a reported success must be a solution
+        lo, hi = case["bounds"]
+        kw["var_bounds"] = (dtype(lo), dtype(hi))
+        x0 = np.clip(x0, dtype(lo + 0.01 * (hi - lo)), dtype(hi - 0.01 * (hi - lo)))
+    if case.get("verbose"):
+        kw["verbose"] = True
+    import contextlib, io
     try:
+      with contextlib.redirect_stdout(io.StringIO()):
         if solver == "nonlinear_roots":
-            x, info = opt.nonlinear_roots(F, x0.copy(), jac=jac, tol=tol)
+            x, info = opt.nonlinear_roots(F, x0.copy(), jac=jac, tol=tol, **kw)
             success = bool(info[0])
         elif solver == "nonlinear_roots_builtin":
             # the front-end's built-in path (dogleg first, then the trust-region Newton) in double precision
-            x, info = opt.nonlinear_roots(F, x0.copy(), jac=jac, tol=tol, use_scipy=False)
+            x, info = opt.nonlinear_roots(F, x0.copy(), jac=jac, tol=tol, use_scipy=False, **kw)
             success = bool(info[0])
         elif solver == "newtontrustregion":
-            x, info = opt.newtontrustregion(F, x0.copy(), jac=jac, tol=tol)
+            x, info = opt.newtontrustregion(F, x0.copy(), jac=jac, tol=tol, **kw)
             success = bool(info[0])
         elif solver == "hybrj":
             if shape == ():
                 r.out(("skip", solver)); return r       # hybrj has no scalar wrapper of its own; reached through nonlinear_roots
-            x, info = opt.hybrj(F, x0.copy(), jac, tol=tol)
+            x, info = opt.hybrj(F, x0.copy(), jac, tol=tol, **kw)
             success = bool(info[0])
     except Exception as e:
         r.add("exceptions"); r.out(("exception", solver, case["system"], type(e).__name__))
@@ -176,7 +186,12 @@ def solve_case(case):
         if not np.all(np.isfinite(np.asarray(x, dtype=np.float64))) or not res <= bound:
             r.v(key + "/false-success", "success => the residual norm is below a modest multiple of the tolerance", case,
                 observed=dict(residual=res, bound=bound, x=np.asarray(x, dtype=float).reshape(-1)[:4]), expected="||F(x)|| <= %g tol (n + ||x||)" % MULTIPLE)
-    r.out((solver, case["system"], case["dtype"], case["jac"], case["guess"], success))
+    if success and case.get("bounds"):
+        lo, hi = case["bounds"]
+        xf = np.asarray(x, dtype=np.float64)
+        if xf.min() < lo - 1e-9 * (hi - lo) or xf.max() > hi + 1e-9 * (hi - lo):
+            r.add("success_outside_box")          # observed, not judged: the statement does not speak about the box
+    r.out((solver, case["system"], case["dtype"], case["jac"], case["guess"], success, bool(case.get("bounds")), bool(case.get("verbose"))))
     if hash(str(case)) % 211 == 0:
         r.samples.append(dict(case=case, success=success))
     return r
@@ -220,6 +235,18 @@ def run(ctx):
                     for guess in (("near", "far", "singular", "g3", "g5", "g1", "gm") if sysn == "cosh" else ("near", "far", "singular")):
                         for tol in (None, 1e-10):
                             cases.append(dict(system=sysn, shape=shp, solver=solver, dtype=dn, jac=jac, guess=guess, tol=tol))
+    # the other ways of calling the solvers: unknowns confined to a box (var_bounds; one box that holds the O(1) roots, one that excludes most of them), verbose
+    for sysn in ("sepquad", "coupled", "trig", "cubic", "rootless", "atan", "cosh"):
+        for shp in ([1], [2], [3], [2, 3]):
+            for solver, dn in (("nonlinear_roots", "float64"), ("nonlinear_roots_builtin", "float64"), ("nonlinear_roots", "longdouble"), ("newtontrustregion", "float64"), ("hybrj", "float64")):
+                for jac in ("analytic", "fd"):
+                    if solver == "hybrj" and jac == "fd":
+                        continue
+                    for guess in ("near", "far"):
+                        for opt_ in (dict(bounds=[-50.0, 50.0]), dict(bounds=[0.5, 50.0]), dict(bounds=[-3.0, 0.25]), dict(verbose=True)):
+                            if ctx.quick and shp == [3] and "bounds" in opt_:
+                                continue
+                            cases.append(dict(system=sysn, shape=shp, solver=solver, dtype=dn, jac=jac, guess=guess, tol=1e-8, **opt_))
     # stiffly scaled systems: a converged step is not a small residual (all sizes; finite-difference and full user Jacobian; the solvers called directly and
     # the front-end on both dispatch paths)
     for sysn in STIFF:
